@@ -9,7 +9,7 @@ import RdpModel.Props.C18
   their size.
 -/
 namespace Rdp.Emit
-open Rdp Rdp.Spec Rdp.Spec.Strict Rdp.Nla
+open Rdp Rdp.Spec Rdp.Spec.Strict Rdp.Nla Rdp.Secrets
 
 @[simp] theorem le16_length (n : Nat) : (le16 n).length = 2 := by simp [le16, encInt]
 @[simp] theorem le32_length (n : Nat) : (le32 n).length = 4 := by simp [le32, encInt]
@@ -385,5 +385,123 @@ theorem c04_join_strict (uid chan : Nat) (h : 1001 ≤ uid) :
   · rw [hj, hab, hcd]; rfl
   · simp [x224Frame, x224DataHeader, tpktHeader]
   · simp [Strict.frame, takeN, bind, Except.bind, need, leNat, mcsPdu]
+
+/-! ### the Client Info frame, all layers -/
+
+theorem u8_cons (x : UInt8) (r : Bytes) (w : String) : Strict.u8 (x :: r) w = .ok (x.toNat, r) := by
+  simp [Strict.u8, takeN, bind, Except.bind, pure, Except.pure, leNat]
+
+theorem perLen_writeLength (n : Nat) (r : Bytes) (h : n < 32768) : perLen (Per.writeLength n ++ r) = .ok (n, r) := by
+  unfold Per.writeLength perLen
+  by_cases hn : n > 0x7f
+  · rw [if_pos hn]
+    have hor : n ||| 0x8000 = 32768 + n := by
+      have := Nat.two_pow_add_eq_or_of_lt (i := 15) (b := n) (by omega) 1
+      simp at this
+      rw [Nat.or_comm]; omega
+    rw [hor]
+    have e : encInt .be 2 (32768 + n) = [UInt8.ofNat ((32768 + n) / 256 % 256), UInt8.ofNat ((32768 + n) % 256)] := by
+      simp [encInt, leBytes]
+    rw [e]
+    simp only [List.cons_append, List.nil_append, u8_cons, bind, Except.bind]
+    have hx : ¬ ((UInt8.ofNat ((32768 + n) / 256 % 256)).toNat < 0x80) := by simp; omega
+    rw [if_neg hx]
+    simp only [u8_cons, pure, Except.pure]
+    congr 2
+    simp; omega
+  · rw [if_neg hn]
+    simp only [List.cons_append, List.nil_append, u8_cons, bind, Except.bind]
+    have hx : (UInt8.ofNat n).toNat < 0x80 := by simp; omega
+    rw [if_pos hx]
+    simp only [pure, Except.pure]
+    congr 2
+    simp; omega
+end Rdp.Emit
+
+namespace Rdp.Emit
+open Rdp Rdp.Spec Rdp.Spec.Strict Rdp.Nla Rdp.Secrets
+
+theorem takeN_cons2 (a b : UInt8) (r : Bytes) (w : String) : takeN 2 (a :: b :: r) w = .ok ([a, b], r) :=
+  takeN_len 2 [a, b] r w rfl
+theorem b16_cons (a b : UInt8) (r : Bytes) (w : String) : b16 (a :: b :: r) w = .ok (b.toNat + 256 * a.toNat, r) := by
+  unfold b16
+  rw [takeN_cons2]
+  simp only [bind, Except.bind, pure, Except.pure, List.reverse_cons, List.reverse_nil, List.nil_append, List.cons_append, leNat]
+  simp
+theorem u8_consB (x : UInt8) (r : Bytes) (w : String) : Strict.u8 (x :: r) w = .ok (x.toNat, r) := by
+  unfold Strict.u8
+  rw [show x :: r = [x] ++ r from rfl, takeN_len 1 [x] r w rfl]
+  simp [bind, Except.bind, pure, Except.pure, leNat]
+
+theorem mcsPdu_sdrq (a b c d : UInt8) (rest : Bytes) :
+    mcsPdu (0x64 :: a :: b :: c :: d :: 0x70 :: rest) =
+      (perLen rest).bind fun (n, r) =>
+        (need (n = r.length) "send-data-request length ≠ size").bind fun _ =>
+          sdrqUserData (b.toNat + 256 * a.toNat + 1001) r := by
+  unfold mcsPdu
+  simp only
+  rw [if_neg (by decide), if_neg (by decide), if_neg (by decide), if_neg (by decide), if_pos (by decide)]
+  simp only [bind, Except.bind]
+  rw [b16_cons]; simp only
+  rw [b16_cons]; simp only
+  rw [u8_consB]; simp only [need]
+  rw [if_pos (by simp)]
+theorem frame_dt (x y : UInt8) (p : Bytes) (hlen : y.toNat + 256 * x.toNat = p.length + 7) :
+    Strict.frame ([3, 0, x, y] ++ (2 :: 0xF0 :: 0x80 :: p)) = mcsPdu p := by
+  unfold Strict.frame
+  rw [takeN_len 4 [3, 0, x, y] _ _ rfl]
+  simp only [bind, Except.bind, need]
+  rw [if_pos (by simp)]
+  simp only
+  have hsz : leNat (List.drop 2 [3, 0, x, y]).reverse = ([3, 0, x, y] ++ (2 :: 0xF0 :: 0x80 :: p)).length := by
+    show leNat [y, x] = _
+    simp only [leNat, List.length_append, List.length_cons, List.length_nil]
+    omega
+  rw [if_pos (by simpa using hsz)]
+
+/-- **The Client Info frame is well formed.**  For every assigned user id and every credential
+    set whose info packet fits the 15-bit MCS length, the complete frame — TPKT, X.224, the
+    send-data-request with initiator, channel 1003 and its PER length, and the info packet —
+    is accepted by the strict decoders. -/
+theorem c04_infoFrame_strict (uid : Nat) (m : Mode) (ext : Bool) (d u p : List Char)
+    (h1 : 1001 ≤ uid) (h2 : uid ≤ 65535)
+    (hd : (utf16le d).length < 65536) (hu : (utf16le u).length < 65536) (hp : (utf16le p).length < 65536)
+    (hl : (infoPdu m ext d u p).length < 32768) :
+    ∃ f, Mcs.sendFrame uid 1003 (infoPdu m ext d u p) = .ok f ∧ Strict.frame f = .ok () := by
+  have hinfo : ∀ ini, Strict.sdrqUserData ini (infoPdu m ext d u p) = .ok () := by
+    intro ini
+    unfold infoPdu
+    split
+    · exact c04_clientInfo_strict ini ext m.autoLogon [] [] [] (by decide) (by decide) (by decide)
+    · exact c04_clientInfo_strict ini ext m.autoLogon d u p hd hu hp
+  generalize hM : infoPdu m ext d u p = msg at hl hinfo
+  unfold Mcs.sendFrame Mcs.sendDataRequest
+  simp only [checkedSub, h1, if_true, Outcome.bind_ok, Nat.mod_eq_of_lt (show msg.length < 65536 by omega)]
+  have hwl : (Per.writeLength msg.length).length ≤ 2 := by unfold Per.writeLength; split <;> simp [encInt]
+  have hab : encInt .be 2 (uid - 1001) = [UInt8.ofNat ((uid - 1001) / 256 % 256), UInt8.ofNat ((uid - 1001) % 256)] := by simp [encInt, leBytes]
+  have hcd : encInt .be 2 1003 = [3, 235] := by decide
+  rw [hab, hcd]
+  generalize UInt8.ofNat ((uid - 1001) / 256 % 256) = a
+  generalize UInt8.ofNat ((uid - 1001) % 256) = b
+  generalize hW : Per.writeLength msg.length = wl at hwl
+  have hper : perLen (wl ++ msg) = .ok (msg.length, msg) := by rw [← hW]; exact perLen_writeLength _ _ hl
+  simp only [x224DataHeader, List.length_append, List.length_cons, List.length_nil]
+  rw [if_neg (by omega)]
+  refine ⟨_, rfl, ?_⟩
+  generalize hN : (0 + 1 + 1 + 1 + (0 + 1 + (0 + 1 + 1) + (0 + 1 + 1) + (0 + 1) + wl.length + msg.length)) = n
+  have hn : n + 4 < 65536 := by omega
+  unfold Strict.frame tpktHeader
+  simp only [List.cons_append, List.nil_append]
+  have hlen : (wl ++ msg).length + 13 = n + 4 := by rw [← hN]; simp only [List.length_append]; omega
+  show Strict.frame ([3, 0, UInt8.ofNat ((n + 4) / 256), UInt8.ofNat ((n + 4) % 256)] ++ (2 :: 0xF0 :: 0x80 :: (0x64 :: a :: b :: 3 :: 235 :: 0x70 :: (wl ++ msg)))) = .ok ()
+  rw [frame_dt _ _ _ (by
+    simp only [UInt8.toNat_ofNat', Nat.reducePow, List.length_cons]
+    simp only [List.length_append] at hlen ⊢
+    omega)]
+  rw [mcsPdu_sdrq, hper]
+  simp only [Except.bind, need]
+  rw [if_pos (by simp)]
+  simp only
+  exact hinfo _
 
 end Rdp.Emit
